@@ -28,8 +28,8 @@ CHECKS = {
         "technique": "bounded model checking (Kani/CBMC): lexer on every one-character input and limit; parser entry points only as concrete runs under a rowan contract stub",
         "text": "the lexer never panics, overflows, slices out of bounds or fails to terminate on any input of at most one character "
                 "(1-4 bytes) under any token limit (compositional: first item + post-state, then the Eof step); the parser entry points "
-                "have no feasible symbolic dimension (measured) and appear only as three concrete witness runs that carry the known "
-                "finding 'parse_type panics without a single root node'.",
+                "have no feasible symbolic dimension (measured) and appear only as three concrete regression runs of parse_type "
+                "(\"\", \" Int\", \"!\") for the repaired 'no single root node' panic.",
         "design_ref": "DESIGN.md section 4, C01",
         "note": "rowan's GreenNodeBuilder is replaced by a contract shadow in the parser runs (replayed against real rowan); inputs of "
                 "two or more characters, the parser on anything but the witness inputs, stack depth and the compiler-level entry points "
